@@ -175,7 +175,7 @@ func runC34(c *Ctx) error {
 		c34run(c, script, i < len(fixed))
 	}
 	c34stress(c)
-	return nil
+	return c34saturated(c)
 }
 
 // registrations racing with a timer loop that iterates as fast as it can: a timer
@@ -544,4 +544,83 @@ func c34gen(c *Ctx, w *c34world) string {
 		}
 	}
 	return "idle"
+}
+
+// more timers fall due in one tick than callbacks may run at once (the limit is 333), and the callbacks are slow: the
+// ones that wait for a slot are stopped; when slots become free, none of the stopped timers' callbacks may start
+func c34saturated(c *Ctx) error {
+	ts, err := util.NewSimpleTimers(1, 50*time.Millisecond)
+	if err != nil {
+		return err
+	}
+	release := make(chan struct{})
+	var mu sync.Mutex
+	started := map[util.TimerID]bool{}
+	stoppedNow := false
+	var late []util.TimerID
+	n := 333 + 47
+	ids := make([]util.TimerID, n)
+	for i := range ids {
+		id := util.TimerID(fmt.Sprintf("t%03d", i))
+		ids[i] = id
+		if _, err := ts.New(id, func(uint64) time.Duration { return 10 * time.Millisecond }, func(context.Context, uint64) (bool, error) {
+			mu.Lock()
+			if stoppedNow {
+				late = append(late, id)
+				mu.Unlock()
+				return false, nil
+			}
+			started[id] = true
+			mu.Unlock()
+			<-release
+			return false, nil
+		}); err != nil {
+			return err
+		}
+	}
+	if err := ts.Start(context.Background()); err != nil {
+		return err
+	}
+	defer ts.Stop()
+	time.Sleep(300 * time.Millisecond)
+	var waiting []util.TimerID
+	mu.Lock()
+	for _, id := range ids {
+		if !started[id] {
+			waiting = append(waiting, id)
+		}
+	}
+	mu.Unlock()
+	c.Eval(1)
+	c.Count("saturated", fmt.Sprintf("waiting-%d", len(waiting)))
+	if len(waiting) == 0 { // every callback got a slot (another limit, a slow machine): nothing to learn
+		close(release)
+		return nil
+	}
+	if err := ts.StopTimers(waiting); err != nil {
+		close(release)
+		return err
+	}
+	mu.Lock()
+	stoppedNow = true
+	mu.Unlock()
+	close(release)
+	time.Sleep(300 * time.Millisecond)
+	mu.Lock()
+	defer mu.Unlock()
+	isWaiting := map[util.TimerID]bool{}
+	for _, id := range waiting {
+		isWaiting[id] = true
+	}
+	bad := 0
+	for _, id := range late {
+		if isWaiting[id] {
+			bad++
+		}
+	}
+	if bad > 0 {
+		c.Violation("C34:callback-started-after-stop", fmt.Sprintf("%d timers due in one tick with slow callbacks: %d wait for a slot and are stopped; after StopTimers returned and the slots were freed, %d of their callbacks started", n, len(waiting), bad),
+			map[string]interface{}{"timers": n, "stopped_while_waiting": len(waiting), "started_after_stop": bad})
+	}
+	return nil
 }
